@@ -1,7 +1,7 @@
 CONSTANTS
   HashMode = "real"
-  Bug = "NaNIdentity"
-  Sweeps = {"small"}
+  Bug = "PickleKeepsHash"
+  Sweeps = {"xsmall"}
   PairDepth = 2
   NearDepth = 2
   DeepDepth = 1
